@@ -1120,25 +1120,29 @@ def draw_tree(rng):
                     zone['groups'][iso] = draw_group(False)
             zones[zname] = zone
         tree[oname] = {'ng': ngr, 'zones': zones}
+    storage = rng.choice(STORAGES)
+    for out in tree.values():
+        out['storage'] = storage
     return tree
 
 
 def write_hdf(tree, path):
     import h5py
+    set_storage(next(iter(tree.values())).get('storage', '<f4'))
     with h5py.File(path, 'w') as hfile:
         info = hfile.create_group('info')
-        info['NOUT'] = np.array([len(tree)], dtype=np.int32)
+        info['NOUT'] = np.array([len(tree)], dtype=STORE['i'])
         geom = hfile.create_group('geometry')
-        geom['NGEO'] = np.array([len(tree)], dtype=np.int32)
+        geom['NGEO'] = np.array([len(tree)], dtype=STORE['i'])
         for iout, (oname, out) in enumerate(tree.items()):
             gname = f'geometry_{iout}'
             ginfo = info.create_group(oname)
             ginfo['GEOMID'] = np.array([gname.encode()], dtype='S10')
-            ginfo['NG'] = np.array([out['ng']], dtype=np.int32)
+            ginfo['NG'] = np.array([out['ng']], dtype=STORE['i'])
             znames = [z for z in out['zones'] if z != 'totaloutput']
             ggeo = geom.create_group(gname)
-            ggeo['NZONE'] = np.array([len(znames)], dtype=np.int32)
-            ggeo['VOLUME'] = np.array([1.0 + k for k in range(len(znames))], dtype=np.float32)
+            ggeo['NZONE'] = np.array([len(znames)], dtype=STORE['i'])
+            ggeo['VOLUME'] = np.array([1.0 + k for k in range(len(znames))], dtype=STORE['f'])
             ggeo['ZONENAME'] = np.array([z.encode('utf-8') for z in znames],
                                         dtype='S%d' % max([12] + [len(z.encode('utf-8')) + 2 for z in znames]))
             gout = hfile.create_group(oname)
@@ -1146,34 +1150,51 @@ def write_hdf(tree, path):
                 gzone = gout.create_group(zname)
                 if zname == 'totaloutput':
                     for nam, vals in zone['total'].items():
-                        gzone[nam] = np.array(vals, dtype=np.float32)
+                        gzone[nam] = np.array(vals, dtype=STORE['f'])
                     continue
-                gzone['NISOT'] = np.array([len(zone['isotopes'])], dtype=np.int32)
+                gzone['NISOT'] = np.array([len(zone['isotopes'])], dtype=STORE['i'])
                 if zone['isotopes']:
                     gzone['ISOTOPE'] = np.array(
                         [(i + '   ').encode('utf-8') for i in zone['isotopes']],
                         dtype='S%d' % max(12, max(len(i.encode('utf-8')) for i in zone['isotopes']) + 5))
-                    gzone['CONCEN'] = np.array(zone['concen'], dtype=np.float64)
+                    gzone['CONCEN'] = np.array(zone['concen'], dtype=STORE['d'])
                 if zone['flux'] is not None:
-                    gzone['FLUX'] = np.array(zone['flux'], dtype=np.float32)
+                    gzone['FLUX'] = np.array(zone['flux'], dtype=STORE['f'])
                 for gname2, grp in zone['groups'].items():
                     ggrp = gzone.create_group(gname2)
                     for rnam, vals in grp['results'].items():
-                        ggrp[rnam] = np.array(vals, dtype=np.float32)
+                        ggrp[rnam] = np.array(vals, dtype=STORE['f'])
                     if grp['aniso'] is not None or grp['aniso_by_result']:
                         ginf = ggrp.create_group('info')
                         if grp['aniso'] is not None:
-                            ginf['nbAnisotropy'] = np.array([grp['aniso']], dtype=np.int32)
+                            ginf['nbAnisotropy'] = np.array([grp['aniso']], dtype=STORE['i'])
                         for rnam, nan in grp['aniso_by_result'].items():
-                            ginf.create_group(rnam)['nbAnisotropy'] = np.array([nan], dtype=np.int32)
+                            ginf.create_group(rnam)['nbAnisotropy'] = np.array([nan], dtype=STORE['i'])
+
+
+STORE = {'f': '<f4', 'd': '<f8', 'i': '<i4'}     # number types of the file being written / compared
+
+
+def set_storage(kind):
+    '''the layout fixes names and shapes, not the HDF5 number types: single or
+    double precision, little- or big-endian, 4- or 8-byte integers'''
+    order = kind[0]
+    STORE['f'] = order + kind[1:]
+    STORE['d'] = order + 'f8'
+    STORE['i'] = order + ('i8' if kind[1:] == 'f8' else 'i4')
+
+
+STORAGES = ['<f4', '<f4', '>f4', '<f8', '>f8']
 
 
 def f32(vals):
-    return [float(np.float32(v)) for v in vals]
+    '''the numbers as they are stored (precision of the file)'''
+    return [float(np.dtype(STORE['f']).type(v)) for v in vals]
 
 
 def truth_items(tree):
     '''every stored result with its labels, stored numbers, expected shape/bins'''
+    set_storage(next(iter(tree.values())).get('storage', '<f4'))
     items = []
     for oname, out in tree.items():
         ngr = out['ng']
@@ -1237,8 +1258,9 @@ def check_against_truth(ctx, obs, item, who, case):
 
 def coq_tree(tree):
     '''Coq literal of the abstract tree (C10/Apollo.v)'''
+    set_storage(next(iter(tree.values())).get('storage', '<f4'))
     def arr(vals):
-        return clist([cz(fbits(np.float32(v))) for v in vals])
+        return clist([cz(fbits(x)) for x in f32(vals)])
     outs = []
     for oname, out in tree.items():
         zones = []
@@ -1400,12 +1422,13 @@ def draw_user(rng):
                         'Puissance_cœur', 'PF_résiduel', 'power peak factor', 'β_eff',
                         'a_very_long_local_value_name_for_the_reactivity_of_the_core'],
                        rng.randint(2, 5))
-    return {'layout': rng.choice(['flat', 'group']), 'names': names,
+    return {'layout': rng.choice(['flat', 'group']), 'names': names, 'storage': rng.choice(STORAGES),
             'values': [rng.uniform(-3, 3) for _ in names]}
 
 
 def write_user_hdf(user, path):
     import h5py
+    set_storage(user.get('storage', '<f4'))
     with h5py.File(path, 'w') as hfile:
         hfile.create_group('info')['COMMENT'] = np.array([b'user values'], dtype='S16')
         out = hfile.create_group('output')
@@ -1413,12 +1436,12 @@ def write_user_hdf(user, path):
                          dtype='S%d' % (max(len(n.encode('utf-8')) for n in user['names']) + 4))
         if user['layout'] == 'flat':
             out['LOCALNAME'] = names
-            out['LOCALVALUE'] = np.array(user['values'], dtype=np.float32)
+            out['LOCALVALUE'] = np.array(user['values'], dtype=STORE['f'])
         else:
             grp = out.create_group('localvalue')
             grp['LOCALNAME'] = names
             for nam, val in zip(user['names'], user['values']):
-                grp[nam] = np.array([val, val + 1.0], dtype=np.float32)
+                grp[nam] = np.array([val, val + 1.0], dtype=STORE['f'])
 
 
 def user_compare(ctx, path, user, case, where):
@@ -1433,6 +1456,7 @@ def user_compare(ctx, path, user, case, where):
     robs = {r.get('result_name'): [float(x) for x in np.asarray(r['results'].value).reshape(-1)]
             for r in content}
     pick = Picker(path)
+    set_storage(user.get('storage', '<f4'))
     for nam, val in zip(user['names'], user['values']):
         want = f32([val]) if user['layout'] == 'flat' else f32([val, val + 1.0])
         if not same(robs.get(nam, []), want):
@@ -1525,7 +1549,7 @@ def run_histories(ctx, nhist):
             while order == sorted(order):
                 rng.shuffle(order)
             second = {'layout': first['layout'], 'names': [first['names'][i] for i in order],
-                      'values': [rng.uniform(-3, 3) for _ in order]}
+                      'storage': first['storage'], 'values': [rng.uniform(-3, 3) for _ in order]}
             contents = [first, second if rng.random() < 0.8 else draw_user(rng)]
         else:
             first = draw_doc(rng)
@@ -1756,7 +1780,11 @@ def run(ctx):
         shards.append('Definition cases : list ap3case := [\n ' + ';\n '.join(apcases[k:k + 40]) + '].\n'
                       'Eval vm_compute in bad_indices (map check_ap3_wf cases).')
         indexes.append(apindex[k:k + 40])
+    import time as _time
+    _t0 = _time.time()
+    ctx.extra['implementation_wall_s'] = round(_t0 - ctx.t0, 1)
     outs = common.coq_eval(ctx.pid, IMPORTS, shards)
+    ctx.extra['model_wall_s'] = round(_time.time() - _t0, 1)
     supported = 0
     for k, out in enumerate(outs[:ntext_shards]):
         kind, idx = indexes[k]
